@@ -38,9 +38,18 @@ class Conv:
                 self.top.add(n.name)
             if isinstance(n, ast.ClassDef):
                 self.structs[n.name] = [s.target.id for s in n.body if isinstance(s, ast.AnnAssign)]
+        self.methods: dict = {}
+        for n in tree.body:
+            if isinstance(n, ast.ClassDef):
+                self.methods[n.name] = {m.name: f"{n.name}.{m.name}" for m in n.body if isinstance(m, ast.FunctionDef)}
+        self.method_names = {m for d in self.methods.values() for m in d}
         for n in tree.body:
             if isinstance(n, ast.FunctionDef):
                 self.func(n, n.name)
+            if isinstance(n, ast.ClassDef):
+                for m in n.body:
+                    if isinstance(m, ast.FunctionDef):
+                        self.func(m, f"{n.name}.{m.name}")
 
     # -- functions ---------------------------------------------------------------------------
     def func(self, n: ast.FunctionDef, name: str, extra_reject: str | None = None):
@@ -190,6 +199,8 @@ class Conv:
             args = [self.expr(a) for a in e.args if not isinstance(a, (ast.GeneratorExp, ast.ListComp))]
             if isinstance(e.func, ast.Attribute) and e.func.attr == "copy" and not args:
                 return ["Copy", self.expr(e.func.value)]
+            if isinstance(e.func, ast.Attribute) and e.func.attr in self.method_names:
+                return ["MCall", self.expr(e.func.value), e.func.attr, args]
             if isinstance(e.func, ast.Name):
                 f = e.func.id
                 if f == "array":
@@ -246,7 +257,7 @@ def unroll_comprehension(g) -> list:
 
 def convert(src: str) -> dict:
     c = Conv(ast.parse(src))
-    return {"funcs": c.funcs, "structs": c.structs}
+    return {"funcs": c.funcs, "structs": c.structs, "methods": c.methods}
 
 
 def contains_mustreject(x) -> list:
